@@ -776,11 +776,11 @@ func (pc ParseContext) compileCond(ctx context.Context, c ast.Children) (rel.Exp
 }
 
 func (pc ParseContext) compileCondWithControlVar(ctx context.Context, c ast.Children) (rel.Expr, error) {
-	conditions, err := pc.compileCondElements(ctx, c.(ast.One).Node.(ast.Branch)["condition"].(ast.Many)...)
+	conditions, err := pc.compileCondElements(ctx, c.(ast.One).Node.Many("condition")...)
 	if err != nil {
 		return nil, err
 	}
-	values, err := pc.compileCondExprs(ctx, c.(ast.One).Node.(ast.Branch)["value"].(ast.Many)...)
+	values, err := pc.compileCondExprs(ctx, c.(ast.One).Node.Many("value")...)
 	if err != nil {
 		return nil, err
 	}
